@@ -21,15 +21,17 @@ ID = "C08"
 LEAN_MODULES = ["AcnProofs.C08"]
 DRIVER = "drv_C08"
 REQUIRED_THEOREMS = [
-    "Acn.C08.sorted_by_key_partial", "Acn.C08.discrete_is_max", "Acn.C08.short_circuit",
-    "Acn.C08.bisection_within_eps", "Acn.C08.greedy_sequential_partial", "Acn.C08.rr_stop_reason",
-    "Acn.C08.rr_continues", "Acn.C08.uncontrolled_spec", "Acn.C08.gen_eps", "Acn.C08.feasible_set_is_interval",
+    "Acn.C08.gen_eps", "Acn.C08.sorted_by_key", "Acn.C08.discrete_is_max", "Acn.C08.short_circuit",
+    "Acn.C08.bisection_within_eps", "Acn.C08.feasible_set_is_interval", "Acn.C08.bisection_within_eps_alg",
+    "Acn.C08.greedy_sequential", "Acn.C08.rr_stop_reason", "Acn.C08.rr_continues",
+    "Acn.C08.rr_measure_decreases", "Acn.C08.rr_terminates", "Acn.C08.uncontrolled_spec",
 ]
-BUDGET = {"quick": 700, "thorough": 8000, "search": 1000}
+BUDGET = {"quick": 700, "thorough": 5000, "search": 1000}
 TRUSTED = B.TRUSTED + ["ChargingNetwork.is_feasible as the feasibility reference of the oracle (C06)"]
 ASSUMPTIONS = B.ASSUMPTIONS + [
-    "optimality of the bisection assumes the feasible values of one coordinate form an interval "
-    "(IntervalFeasible; true for the phasor check: each constraint is a convex quadratic in one coordinate)",
+    "optimality of the bisection uses that the feasible values of one coordinate form an interval; this is PROVED "
+    "for the phasor check (feasible_set_is_interval via Acn.Feas.algFeasible_interval) and is a hypothesis only for "
+    "other predicates",
 ]
 RULE = B.RULE + ("; C08 counts a case as non-trivial when some grant is strictly inside its own [lb, ub] "
                  "(a constraint decided it)")
@@ -44,6 +46,8 @@ def corpus():
 
 def generate(rng, n, tier):
     out = []
+    if tier == "thorough":
+        out.extend(B.enumerate_small())
     for i in range(n):
         r = i % 12
         if r == 11:
